@@ -46,6 +46,14 @@ def agg_case(draw, tier):
     gaps = [draw(st.integers(1, 5)) for _ in runs]
     offset = draw(st.sampled_from([0, 0, 199501, I32MIN,
                                    2**31 - 1 - sum(gaps) - 1, -7]))
+    # group index values spread over the whole int32 range: consecutive
+    # values further apart than 2^31 (differences overflow int32)
+    spread = None
+    if len(runs) <= 7 and draw(st.integers(0, 5)) == 0:
+        pool = [I32MIN, -2000000000, -5, 0, 7, 2000000000, 2**31 - 1]
+        spread = sorted(draw(st.lists(st.sampled_from(pool),
+                                      min_size=len(runs), max_size=len(runs),
+                                      unique=True)))
     regime = draw(st.sampled_from(["normal", "negative", "zeros", "normal"]))
     vals, nanmask = [], []
     for r in runs:
@@ -64,7 +72,8 @@ def agg_case(draw, tier):
                    or (pat == "random" and draw(st.integers(0, 3)) == 0))
             nanmask.append(isn)
     n = len(vals)
-    return {"runs": runs, "gaps": gaps, "offset": offset, "vals": vals,
+    return {"runs": runs, "gaps": gaps, "offset": offset, "spread": spread,
+            "vals": vals,
             "nan": nanmask, "op": draw(st.integers(0, 3)),
             "maxnan": draw(st.integers(0, max(runs) + 1)),
             "drop_at": draw(st.integers(0, n - 1)),
@@ -74,7 +83,9 @@ def agg_case(draw, tier):
 def build(case):
     idx = []
     cur = case["offset"]
-    for r, g in zip(case["runs"], case["gaps"]):
+    for k, (r, g) in enumerate(zip(case["runs"], case["gaps"])):
+        if case.get("spread"):
+            cur = case["spread"][k]
         idx.extend([cur] * r)
         cur += g
     idx = np.array(idx, dtype=np.int64)
@@ -168,7 +179,7 @@ def agg_oracle(case):
         labels.append("goue")
 
     # ---- decreasing index rejected
-    if len(groups) >= 2:
+    if len(groups) >= 2 and not case.get("spread"):
         p = case["drop_at"]
         bad = idx.copy()
         # lower one element below its predecessor
@@ -184,8 +195,10 @@ def agg_oracle(case):
                 raise Violation(f"{fn.__name__} accepted a decreasing index "
                                 f"{bad.tolist()[:20]} -> {r.tolist()[:10]}")
             labels.append("decreasing-rejected")
-    if case["offset"] not in (0, 199501, -7):
+    if case["offset"] not in (0, 199501, -7) or case.get("spread"):
         labels.append("index:int32-extreme")
+    if case.get("spread"):
+        labels.append("index:steps-beyond-2^31")
     return {"nt": nt, "labels": sorted(set(labels))}
 
 
